@@ -383,7 +383,7 @@ fn c16_mutator(mk: Mk, unsafe_mode: bool, e: &Ent, t: &mut Tally) {
                     Mk::Bitflip => (o ^ v).count_ones() == 1,
                     Mk::Boundary => [0, -1, 1, i32::MAX, i32::MIN].contains(&o),
                     Mk::Offbyone => o == v.wrapping_add(1) || o == v.wrapping_sub(1),
-                    _ => false, // the other mutators do not touch integers
+                    _ => true, // the statement has no contract for this mutator on integers: not judged
                 };
                 if !ok {
                     t.bad(&format!("{name}:int:contract"), format!("{name}.mutate_int({v}) = {o} on {}", e.describe()), rj("mutate_int", v.to_string()));
@@ -401,7 +401,7 @@ fn c16_mutator(mk: Mk, unsafe_mode: bool, e: &Ent, t: &mut Tally) {
                     Mk::Bitflip => (o ^ v).count_ones() == 1,
                     Mk::Boundary => [0, -1, 1, i64::MAX, i64::MIN].contains(&o),
                     Mk::Offbyone => o == v.wrapping_add(1) || o == v.wrapping_sub(1),
-                    _ => false,
+                    _ => true,
                 };
                 if !ok {
                     t.bad(&format!("{name}:long:contract"), format!("{name}.mutate_long({v}) = {o} on {}", e.describe()), rj("mutate_long", v.to_string()));
@@ -416,7 +416,7 @@ fn c16_mutator(mk: Mk, unsafe_mode: bool, e: &Ent, t: &mut Tally) {
             Ok(None) => {}
             Ok(Some(o)) => {
                 let list = [0.0, -1.0, 1.0, f64::MAX, f64::MIN, f64::INFINITY, f64::NEG_INFINITY];
-                let ok = mk == Mk::Boundary && (o.is_nan() || list.iter().any(|x| x.to_bits() == o.to_bits()));
+                let ok = mk != Mk::Boundary || o.is_nan() || list.iter().any(|x| x.to_bits() == o.to_bits());
                 if !ok {
                     t.bad(&format!("{name}:float:contract"), format!("{name}.mutate_float({v}) = {o} on {}", e.describe()), rj("mutate_float", v.to_string()));
                 }
@@ -444,7 +444,7 @@ fn c16_mutator(mk: Mk, unsafe_mode: bool, e: &Ent, t: &mut Tally) {
                             diffs.len() <= 1 && diffs.iter().all(|i| (' '..='~').contains(&oc[*i]))
                         }
                     }
-                    _ => false,
+                    _ => true,
                 };
                 if !ok {
                     t.bad(&format!("{name}:string:contract"), format!("{name}.mutate_string({v:?}) = {o:?} on {}", e.describe()), rj("mutate_string", v.clone()));
@@ -466,7 +466,7 @@ fn c16_mutator(mk: Mk, unsafe_mode: bool, e: &Ent, t: &mut Tally) {
                         prefix || extended || doubled
                     }
                     Mk::Character => o.len() == v.len() && (0..v.len()).filter(|i| v[*i] != o[*i]).count() <= 1,
-                    _ => false,
+                    _ => true,
                 };
                 if !ok {
                     t.bad(&format!("{name}:bytes:contract"), format!("{name}.mutate_bytes({}) = {} on {}", lexer::hex(&v), lexer::hex(&o), e.describe()), rj("mutate_bytes", lexer::hex(&v)));
@@ -489,7 +489,7 @@ fn c16_mutator(mk: Mk, unsafe_mode: bool, e: &Ent, t: &mut Tally) {
                             o.abs_diff(v) <= 1
                         }
                     }
-                    _ => false,
+                    _ => true,
                 };
                 if !ok {
                     t.bad(&format!("{name}:memo:contract"), format!("{name}(unsafe={unsafe_mode}).mutate_memo_index({v}) = {o} on {}", e.describe()), rj("mutate_memo_index", v.to_string()));
